@@ -226,7 +226,8 @@ class PathTemplateWriter:
             log.info("Writing records to {!r}".format(path))
             self.rotate_existing_file(path)
             dst_dir = os.path.dirname(path)
-            if not os.path.exists(dst_dir):
+            # (a template without a directory part, like the default one, names a file in the working directory)
+            if dst_dir and not os.path.exists(dst_dir):
                 os.makedirs(dst_dir)
             rs = RecordWriter(path)
             self.close()
